@@ -7,6 +7,7 @@ CONSTANTS Producers = {"p1"}
           Locks = TRUE
           RealTime = FALSE
           Disconnect = TRUE
+          FatalEvery = 0
           NMsgs = 2
           ScriptSet = {"noexec", "noapp"}
           Script2Set = {"none"}
